@@ -1405,6 +1405,7 @@ func TestVerifPanelReplay(t *testing.T) {
 	res := kit.NewResult()
 	defer func() { res.Save(true) }()
 	idx, diverged := 0, 0
+	confirmed := map[string]int{}
 	t0 := time.Now()
 	err := kit.ReadLines(kit.Env("VERIF_IN", ""), func(line []byte) error {
 		var b panelBehaviour
@@ -1418,8 +1419,15 @@ func TestVerifPanelReplay(t *testing.T) {
 		out := panelRun(env, &b)
 		res.Count(panelSig(&b), panelNontrivial(&b))
 		res.Stat("steps", int64(out.Steps))
-		if len(out.Verdicts) > 0 {
-			// deterministic schedule: the same verdicts must come out of a second run
+		fresh := false
+		for _, v := range out.Verdicts {
+			if confirmed[v.Key] < 3 {
+				fresh = true
+			}
+		}
+		if fresh {
+			// deterministic schedule: the same verdicts must come out of a second run (done for the first
+			// occurrences of every key; later occurrences of a key already confirmed are only counted)
 			out2 := panelRun(env, &b)
 			keys2 := map[string]bool{}
 			for _, v := range out2.Verdicts {
@@ -1427,11 +1435,16 @@ func TestVerifPanelReplay(t *testing.T) {
 			}
 			for _, v := range out.Verdicts {
 				if keys2[v.Key] {
+					confirmed[v.Key]++
 					res.Violate(v.Key, v.What, map[string]any{"behaviour": b, "table": out.Table, "evidence": v.Ev})
 				} else {
 					res.Stat("unstable", 1)
 					res.Note("unstable verdict %q on behaviour %d (%s)", v.Key, idx, b.Cfg.Name)
 				}
+			}
+		} else {
+			for _, v := range out.Verdicts {
+				res.Violate(v.Key, v.What, map[string]any{"behaviour": b, "table": out.Table, "evidence": v.Ev})
 			}
 		}
 		if out.Diverged != "" && b.Cfg.Mode != "probe" {
